@@ -574,3 +574,31 @@ Theorem built_failed_blocks_dependents ops cf ls st v p :
   let g := build_graph ops in
   dsteps g cf (init_state []) ls = Some st -> In (XTask v) (d_errs st) -> depends_on g p v -> d_thread st p = NotSpawned.
 Proof. intros g H. apply (failed_blocks_dependents g cf); [eapply built_reachable | eapply built_report]; exact H. Qed.
+
+(* ---- C13, transitively: when a task function is entered every task it depends on, directly or
+   through other tasks, has returned nil and that completion was received ---- *)
+Lemma okdone_below g cf st m u :
+  Inv g cf st -> In m (d_okdone st) -> depends_on g m u -> In u (d_okdone st).
+Proof.
+  intros I O D. induction D as [p c E|p x c E D IH].
+  - apply (t_down g cf st I p); [|exact E]. rewrite (t_okdone g cf st I p O). discriminate.
+  - apply IH. apply (t_down g cf st I p); [|exact E]. rewrite (t_okdone g cf st I p O). discriminate.
+Qed.
+
+Theorem start_needs_all_dependencies g cf st v st' :
+  Inv g cf st -> dstep g cf st (LStart v) = Some st' ->
+  forall u, depends_on g v u -> In u (d_okdone st) /\ d_thread st u = Gone.
+Proof.
+  intros I S u D.
+  assert (O : In u (d_okdone st)).
+  { destruct D as [p c E|p m c E D].
+    - eapply start_needs_dependencies; eauto.
+    - eapply okdone_below; [exact I | | exact D]. eapply start_needs_dependencies; eauto. }
+  split; [exact O | apply (t_okdone g cf st I u O)].
+Qed.
+
+Theorem built_start_needs_all_dependencies ops cf ls st v st' :
+  let g := build_graph ops in
+  dsteps g cf (init_state []) ls = Some st -> dstep g cf st (LStart v) = Some st' ->
+  forall u, depends_on g v u -> In u (d_okdone st) /\ d_thread st u = Gone.
+Proof. intros g H. apply start_needs_all_dependencies. eapply built_reachable; exact H. Qed.
